@@ -14,6 +14,7 @@ python3 tools/rs2lean6a.py > /dev/null
 python3 tools/rs2lean6b.py > /dev/null
 python3 tools/rs2lean6c.py > /dev/null
 python3 tools/rs2lean6d.py > /dev/null
-(cd lean && lake build JsonbModel jvmodel JsonbModel.Proofs.TranslatedAgree JsonbModel.Proofs.TranslatedAgreeB JsonbModel.Proofs.TranslatedAgreeC JsonbModel.Proofs.TranslatedAgreeD JsonbModel.Proofs.TranslatedAgreeE JsonbModel.Proofs.TranslatedAgreeF JsonbModel.Proofs.TranslatedAgreeG JsonbModel.Proofs.TranslatedAgreeH JsonbModel.Proofs.TranslatedAgreeI JsonbModel.Proofs.TranslatedAgreeJ JsonbModel.Proofs.TranslatedAgreeJ8 JsonbModel.Proofs.PathEscapes JsonbModel.Proofs.PathArith $(for i in 01 02 03 04 05 06 07 08 09 10 11 12 13 14 15 16 17 18 19 20; do echo JsonbModel.Props.C$i; done))
+python3 tools/rs2lean7.py > /dev/null
+(cd lean && lake build JsonbModel jvmodel JsonbModel.Proofs.TranslatedAgree JsonbModel.Proofs.TranslatedAgreeB JsonbModel.Proofs.TranslatedAgreeC JsonbModel.Proofs.TranslatedAgreeD JsonbModel.Proofs.TranslatedAgreeE JsonbModel.Proofs.TranslatedAgreeF JsonbModel.Proofs.TranslatedAgreeG JsonbModel.Proofs.TranslatedAgreeH JsonbModel.Proofs.TranslatedAgreeI JsonbModel.Proofs.TranslatedAgreeJ JsonbModel.Proofs.TranslatedAgreeJ8 JsonbModel.Proofs.TranslatedAgreeK JsonbModel.Proofs.PathEscapes JsonbModel.Proofs.PathArith $(for i in 01 02 03 04 05 06 07 08 09 10 11 12 13 14 15 16 17 18 19 20; do echo JsonbModel.Props.C$i; done))
 (cd harness && cargo build --offline)
 echo setup-ok
